@@ -33,7 +33,7 @@ EXPLANATION = (
     "variable, a counter running down from len(.)-1 under >= 0, or a guard comparing the index with a length). C16.h: constant propagation "
     "of the step for water_table in {0,1}: no cell of the daily tables receives the constant None (stored as NaN). C16.i: month and day of "
     "a real date are completed to a date only with a leap mock year (own positive example). C16.j: the profile-deepening while loop makes "
-    "progress on every iteration (every path from the body's entry back to the test stores into the thickness column). C16.k: prepare_weather floors the ReferenceET column of the frame it returns at a positive value on every path (biomass accumulation divides by it), and no inplace=True method is applied to a selection of a frame anywhere (no effect under copy-on-write; own positive example). C16.l: the curve-number runoff quotient, whose denominator is the rain itself when the retention is 0 (curve number 100), is evaluated only under a strict comparison of the rain with the initial abstraction. C16.m (no step beyond the window; abstract interpretation over 8 clock states, shared with C07.b): whenever the step just taken ends on or after the end date the termination test returns True - otherwise update_time reads one past the last entry of time_span and the run raises IndexError on the last day of a window that cuts a season. NOT decided: numeric assert "
+    "progress on every iteration (every path from the body's entry back to the test stores into the thickness column). C16.k: prepare_weather floors the ReferenceET column of the frame it returns at a positive value on every path (biomass accumulation divides by it), and no inplace=True method is applied to a selection of a frame anywhere (no effect under copy-on-write; own positive example). C16.l: the curve-number runoff quotient, whose denominator is the rain itself when the retention is 0 (curve number 100), is evaluated only under a strict comparison of the rain with the initial abstraction. C16.m (no step beyond the window; abstract interpretation over 8 clock states, shared with C07.b): whenever the step just taken ends on or after the end date the termination test returns True - otherwise update_time reads one past the last entry of time_span and the run raises IndexError on the last day of a window that cuts a season. C16.n (T-LOOP, shared with C07.m): every while loop of the package has a visible reason to stop - a local compared with a loop-invariant bound and stepped towards it on every cycle (must-pass-through on the CFG), a countdown, a flag set from a counter test, a value recomputed from a stepped counter (listed, with the monotonicity reason), a delegated progress argument (the model's outer loop: C07.b; the profile deepening loop), or a listed convergence search that is preceded on every path by a guard raising when a parameter its convergence needs is <= 0. C16.o (the top soil keeps a compartment): every thickness store of the deepening loop concerns a compartment below the top soil (guarded by dzsum > z_top) or is followed on every path by z_top = max(z_top, first thickness) - otherwise a one-compartment profile has no compartment ending within z_top and root_zone_water's assertion fails. NOT decided: numeric assert "
     "failures, non-finite results from run-time values, pandas-internal errors.")
 
 L = frozenset
@@ -303,6 +303,7 @@ def attribute_definedness(chk, prog):
         cs = set()
         for p in paths:
             c = None
+            p = p.replace("~", "")          # a shallow copy (sa/roles.py) is an object of the same class
             if is_crop_obj({p}):
                 c = "Crop"
             else:
@@ -715,7 +716,7 @@ def deepening_progress(chk, prog):
     thickness column (followed by the refresh of the derived total) - a `for ... if ...: break` that may find nothing to change is
     not enough."""
     from ..common import INIT_ROOT
-    n = 0
+    n = n_o = 0
     for key in sorted(prog.reachable_from(INIT_ROOT)):
         fi = prog.funcs.get(key)
         if fi is None:
@@ -741,7 +742,33 @@ def deepening_progress(chk, prog):
                               "qualifies): the loop never ends, e.g. Soil('SandyLoam', dz=[0.3]*4) under Maize", loc=fi.loc(w))
             else:
                 chk.ok("C16.j", where, construct, "every path through the body stores into the thickness column")
+            # C16.o: the water-stress routines need a compartment that ends within the top soil (`assert comp_sto > 0` in root_zone_water; the
+            # Soil constructor guarantees z_top >= dz[0]). A thickness store of the deepening loop either concerns a compartment that lies
+            # below the top soil (guarded by `dzsum > z_top`), or is followed on every path to the next iteration by `z_top = max(z_top, <dz>)`.
+            ztop_sets = {k.id for k in cfg.live_nodes() if isinstance(k.ast, ast.Assign) and isinstance(k.ast.targets[0], ast.Attribute)
+                         and k.ast.targets[0].attr == "z_top" and isinstance(k.ast.value, ast.Call) and norm(k.ast.value.func) in ("max", "np.maximum")
+                         and any(isinstance(x, ast.Attribute) and x.attr == "z_top" for x in ast.walk(k.ast.value))
+                         and any((isinstance(x, ast.Attribute) and x.attr == "dz") or (isinstance(x, ast.Constant) and x.value == "dz") for x in ast.walk(k.ast.value))}
+            for pid_ in sorted(progress):
+                pn = cfg.nodes[pid_]
+                if not any(x is pn.ast for x in ast.walk(w)):
+                    continue
+                guarded = any(cfg.nodes[t].kind == "test" and l is True and isinstance(cfg.nodes[t].ast, ast.Compare)
+                              and any(isinstance(x, ast.Attribute) and x.attr == "z_top" for x in ast.walk(cfg.nodes[t].ast.comparators[0]))
+                              and isinstance(cfg.nodes[t].ast.ops[0], (ast.Gt, ast.GtE))
+                              and any(isinstance(x, ast.Constant) and x.value == "dzsum" for x in ast.walk(cfg.nodes[t].ast.left))
+                              for t, l in cfg.transitive_control_deps(pid_))
+                cons = f"{norm(pn.ast)[:80]}: a compartment still ends within the top soil"
+                n_o += 1
+                if guarded:
+                    chk.ok("C16.o", where, cons, "only compartments below the top soil are thickened (`dzsum > z_top`)")
+                elif all(not cfg.paths_exist_avoiding(s_, h.id, ztop_sets) for s_, _ in pn.succs for h in heads):
+                    chk.ok("C16.o", where, cons, "followed on every path by z_top = max(z_top, first thickness)")
+                else:
+                    chk.violation("C16.o", where, cons, "this store may thicken the first compartment beyond the top-soil depth (a profile of one compartment, e.g. "
+                                  "Soil('Loam', dz=[1.2]) under Maize): no compartment ends within z_top and root_zone_water's `assert comp_sto > 0` fails", loc=fi.loc(pn.ast))
     chk.floor("C16.j", n, 1, "loops on the soil depth below _initialize")
+    chk.floor("C16.o", n_o, 2, "thickness stores of the deepening loop")
 
 
 def run(chk, prog, tier):
@@ -755,4 +782,6 @@ def run(chk, prog, tier):
     runoff_quotient(chk, prog)
     from .c07 import finished_at_window_end
     finished_at_window_end(chk, prog, "C16.m")
+    from ._loops import loop_variants
+    chk.floor("C16.n", loop_variants(chk, prog, "C16.n"), 18, "while loops of the package classified by their reason to stop")
     chk.exhaustive = True
